@@ -72,6 +72,8 @@ type walkLoop struct {
 	// strideAVP: the AVP value the stride expression refers to when it lives in a re-slicing helper (that
 	// helper's *AVP parameter, bound to avp at the call)
 	strideAVP ssa.Value
+	// strideLen: the helper's integer parameter that receives the decoded AVP's wire Length
+	strideLen *ssa.Parameter
 }
 
 // avpDecodeCall classifies a call as "decodes one AVP from bytes": a library function of package diam that
@@ -177,7 +179,7 @@ func (c *Ctx) walkLoops() ([]*walkLoop, []string) {
 								if h == nil || h.Blocks == nil || !c.P.IsLibrary(h) {
 									continue
 								}
-								var hb, ha *ssa.Parameter
+								var hb, ha, hn *ssa.Parameter
 								for j, a := range hc.Call.Args {
 									if j >= len(h.Params) {
 										continue
@@ -188,8 +190,14 @@ func (c *Ctx) walkLoops() ([]*walkLoop, []string) {
 									if a == av {
 										ha = h.Params[j]
 									}
+									// … or the helper is handed the decoded AVP's wire Length itself
+									if u, isLd := flow.Peel(a).(*ssa.UnOp); isLd && u.Op == token.MUL {
+										if tn, fld, base, ok := flow.FieldOf(u); ok && tn == "AVP" && fld == "Length" && base == av {
+											hn = h.Params[j]
+										}
+									}
 								}
-								if hb == nil || ha == nil {
+								if hb == nil || (ha == nil && hn == nil) {
 									continue
 								}
 								var low ssa.Value
@@ -206,7 +214,12 @@ func (c *Ctx) walkLoops() ([]*walkLoop, []string) {
 									low = rs.Low
 								}
 								if okShape && low != nil {
-									w.stride, w.form, w.container, w.strideAVP = low, "re-slicing through "+h.Name()+": b = b[k:]", ph, ha
+									w.stride, w.form, w.container = low, "re-slicing through "+h.Name()+": b = b[k:]", ph
+									if ha != nil {
+										w.strideAVP = ha
+									} else {
+										w.strideLen = hn
+									}
 								}
 							}
 						}
@@ -352,6 +365,9 @@ func runC04(c *Ctx) {
 		env := &cong.Env{
 			MaxDepth: c.Depth,
 			IsSym: func(v ssa.Value) bool {
+				if w.strideLen != nil && v == ssa.Value(w.strideLen) {
+					return true
+				}
 				u, ok := v.(*ssa.UnOp)
 				if !ok || u.Op != token.MUL {
 					return false
